@@ -241,6 +241,95 @@ def rule_OD8(rep, prog):
                 "no dispatch_group_leave on the fd_entry's barrier group: barriers would never run", sample={"leaves": len(leaves)})
 
 
+def rule_OD12(rep, prog):
+    rid = rep.rule("C14-OD12", "the water marks and interval an operation runs under are the channel's at SUBMISSION: the operation's `params` is one whole-struct "
+                   "snapshot of the channel's, taken in _dispatch_operation_create (which runs on the channel queue, in order with dispatch_io_set_high_water / "
+                   "_low_water / _interval) and written nowhere else", floor=1)
+    n = 0
+    for fn in prog.all_functions():
+        for c in fn.all_insts():
+            dst = None
+            if c.op == "call" and c.callee and c.callee.startswith("llvm.memcpy"):
+                dst, src = fn.inst(c.ops[0]), fn.inst(c.ops[1])
+            elif c.op == "store" and c.d.get("ptr"):
+                dst, src = c, None
+            if dst is None or not dst.d.get("ptr") or dst.d["ptr"].get("sty") != "struct.dispatch_operation_s":
+                continue
+            fl = prog.fields(dst)
+            if "params" not in fl and not (fl & {"low", "high", "interval", "interval_flags"}):
+                continue
+            n += 1
+            rep.saw(fn)
+            ok = c.origin == "_dispatch_operation_create" and src is not None and src.d.get("ptr") and src.d["ptr"].get("sty") == "struct.dispatch_io_s" and \
+                "params" in prog.fields(src)
+            rep.require(rid, bool(ok), c.loc, c.origin, "operation-params-written-outside-create:%s" % c.origin,
+                        "%s writes the params of an operation%s: the snapshot must be the channel's params copied in _dispatch_operation_create - taken later (on the "
+                        "barrier queue) a dispatch_io_set_high_water issued AFTER the read was submitted is already visible, and the earlier read delivers data "
+                        "objects larger than the high-water mark it was submitted under" % (c.origin, "" if src is not None else " field by field"),
+                        sample={"fn": c.origin, "at": c.loc})
+    if n < 1:
+        rep.unknown(rid, "no snapshot of the channel params into an operation found")
+
+
+def rule_MP13(rep, prog):
+    rid = rep.rule("C14-MP13", "the disk request ring is filled without losing an operation: a slot of advise_list is written only after that very slot was read and found "
+                   "empty (a pending request is never overwritten), and the fill index advances only past a slot that was just filled (an operation completed early - "
+                   "channel stopped / failed - leaves no hole in front of the request index)", floor=2)
+    fn = prog.fn("_dispatch_disk_handler")
+    rep.saw(fn)
+    sts = [st for st in fn.all_insts() if st.op == "store" and "advise_list" in prog.fields(st) and st.ops[0][0] == "i"]
+    if not sts:
+        rep.unknown(rid, "anchor vanished: _dispatch_disk_handler stores no operation into advise_list")
+        return
+    def slot_key(gep_op):
+        g = fn.inst(gep_op)
+        while g is not None and g.op == "bitcast":
+            g = fn.inst(g.ops[0])
+        if g is None or g.op != "getelementptr":
+            return None
+        idx = fn.inst(g.ops[-1])
+        if idx is not None and idx.op == "urem":
+            return ("urem", tuple(idx.ops[0][:2]))
+        return ("raw", tuple(g.ops[-1][:2]))
+    for st in sts:
+        key = slot_key(st.ops[1])
+        cx = paths.dom_ctx(fn, st)
+        ok = False
+        for iid, tv in cx.truth.items():
+            t = fn.insts[iid]
+            if t.op == "icmp" and t.d["pred"] in ("eq", "ne") and t.ops[1][0] == "n" and tv == (t.d["pred"] == "eq"):
+                l = fn.inst(t.ops[0])
+                if l is not None and l.op == "load" and "advise_list" in prog.fields(l) and slot_key(l.ops[0]) == key and key is not None:
+                    ok = True
+        rep.require(rid, ok, st.loc, fn.name, "ring-slot-overwritten",
+                    "_dispatch_disk_handler stores an operation into an advise_list slot that it has not just found empty: with more operations pending than free "
+                    "slots the oldest pending request is overwritten - that operation stays active and retained but is never performed, its handler never sees "
+                    "done and the channel's cleanup handler never runs", sample={"store": st.loc})
+    # the loop-carried fill index: on every way round the loop that increments it, a slot was filled
+    n = 0
+    for ph in fn.all_insts():
+        if ph.op != "phi" or not any(fn.dominates(ph, fn.blocks[frm].term) for v, frm in ph.ops):
+            continue
+        for v, frm in ph.ops:
+            inc = fn.inst(v)
+            if inc is None or inc.op != "add" or tuple(inc.ops[0][:2]) != ("i", ph.id) or not (inc.ops[1][0] == "c" and inc.ops[1][1] == 1):
+                continue
+            if not any(slot_key(st.ops[1]) == ("urem", ("i", ph.id)) for st in sts):
+                continue
+            n += 1
+            # paths from the loop head to the latch `frm` that carry the incremented value: each passes a store into the ring
+            class _S: pass
+            s0 = _S(); s0.block = ph.block; s0.idx = ph.block.insts.index(ph); s0.loc = ph.loc
+            latch = fn.blocks[frm].term
+            bare = [r for r in paths.walk(fn, s0, lambda i: i is latch, avoid=lambda i: i in sts) if r[0] == "hit"]
+            rep.require(rid, not bare, inc.loc, fn.name, "ring-index-advanced-past-unfilled-slot",
+                        "_dispatch_disk_handler advances the ring fill index on a way round the loop that stored nothing into the slot (path %s): an operation that is "
+                        "completed early instead of being queued (its channel was stopped) leaves an empty slot at the request index - every later operation on that "
+                        "device is marked active but never performed" % (bare[0][3] if bare else None), sample={"increment": inc.loc})
+    if n < 1:
+        rep.unknown(rid, "loop-carried ring fill index of _dispatch_disk_handler not recognised")
+
+
 def _handler_calls(prog, fn):
     """indirect calls of the client's io handler block: (block, bool done, data, int error)"""
     return [c for c in fn.all_insts() if c.op == "call" and "icallee" in c.d and len(c.ops) == 4 and (c.ops[1][0] in ("c", "i"))]
@@ -358,6 +447,10 @@ def run(rep, tier="quick", srcdir=None, only=None):
         rule_TB10(rep, prog)
     if want("C14-OD11"):
         rule_OD11(rep, prog)
+    if want("C14-OD12"):
+        rule_OD12(rep, prog)
+    if want("C14-MP13"):
+        rule_MP13(rep, prog)
 
 
 MANIFEST = {
